@@ -192,7 +192,8 @@ def replay_one(args):
                             except Exception:
                                 o['py'][i - 1] = []
         obs[m] = o
-    return {'nodes': sc['nodes'], 'decl': sc['decl'], 'pysnmp': bool(with_py), 'obs': [obs[m] for m in range(1, nmods + 1)], 'texts': texts}
+    return {'nodes': sc['nodes'], 'decl': sc['decl'], 'pysnmp': bool(with_py), 'obs': [obs[m] for m in range(1, nmods + 1)], 'texts': texts,
+            'names': {str(k): v for k, v in nm.items()}}
 
 
 def run(out, prop, tier, seed, only_slices=None):
@@ -248,9 +249,23 @@ def run(out, prop, tier, seed, only_slices=None):
 
 
 def classify(t, errs):
-    if 'pysmi_' in errs or 'No generated code for symbol' in errs:
+    if 'No generated code for symbol' in errs or ('no symbol' in errs and 'in module' in errs):
         return 'python-keyword-identifier'
+    if any(o['status'] == 'py-loaderror' for o in t['obs']) and imports_unsafe_name(t):
+        return 'pysnmp-import-name'
     return 'other'
+
+
+def imports_unsafe_name(t):
+    """Does some module import a node from another module whose identifier is not a plain Python name?"""
+    import keyword
+    nodes = t['nodes']
+    for nd in nodes:
+        if nd['parent'] and nodes[nd['parent'] - 1]['mod'] != nd['mod']:
+            name = t.get('names', {}).get(str(nd['parent']), '')
+            if '-' in name or keyword.iskeyword(name):
+                return True
+    return False
 
 
 def replay(path):
